@@ -25,6 +25,7 @@ fn main() {
         "c06-replay" => big_stack(move || c06::replay(&rest2)),
         "c06-emit" => big_stack(move || c06::emit(&rest2)),
         "grammar-list" => big_stack(move || c01::grammar_list(&rest2)),
+        "lc-observe" => linecol::observe(rest),
         "c01-replay" => big_stack(move || c01::replay(&rest2)),
         "stack-replay" => stack::replay(rest),
         "stack-emit" => stack::emit(rest),
